@@ -3,4 +3,4 @@ From Coq Require Import List NArith ZArith Extraction ExtrOcamlBasic.
 From NV Require Import Bytes GenConsts ReSyntax ReParse ReEmit ReVM RsetDefs.
 Definition all_types : nat * N * Z := (0%nat, 0%N, 0%Z).
 Extraction "re_model.ml" all_types regcomp regexec rset_make rset_find rset_find_d rset_pattern re_groupcount
-  count zlen nlen emit_n parse_pat grpnum brk_len depth rset_shape ngroups.
+  count zlen nlen emit_n parse_pat grpnum brk_len depth rset_shape ngroups parse_bad re_groupcount_opt somes.
